@@ -148,6 +148,7 @@ class GateAnalysis:
         self._gates = {}
         self._isgate = {}
         self._ungated = {}
+        self._inprogress = set()
         self.bad_gates = []       # (func, node, text)
         self.assumed_gates = []
         self.extra = extra_gate_calls or (lambda call, func: None)
@@ -157,6 +158,9 @@ class GateAnalysis:
         statements that call a gate function)."""
         if func.key in self._gates:
             return self._gates[func.key]
+        if func.key in self._inprogress:
+            return {}
+        self._inprogress.add(func.key)
         cfg = cfg_of(func)
         gates = {}
         for n in own_nodes(func.node):
@@ -183,8 +187,8 @@ class GateAnalysis:
                 x = self.extra(n, func)
                 if x:
                     gates.setdefault(cfg.node_for(n), x)
-        if not _stack:
-            self._gates[func.key] = gates
+        self._inprogress.discard(func.key)
+        self._gates[func.key] = gates
         return gates
 
     def is_gate_func(self, func, _stack=()):
@@ -196,7 +200,7 @@ class GateAnalysis:
         cfg = cfg_of(func)
         gates = self.local_gates(func, _stack)
         res = bool(gates) and not cfg.can_reach(cfg.entry, cfg.exit, avoid=set(gates))
-        if not _stack:
+        if func.key not in self._inprogress:
             self._isgate[func.key] = res
         return res
 
@@ -313,3 +317,89 @@ def transitively_calls(func, ctx, pred, _seen=None, depth=0):
         if pred(callee) or transitively_calls(callee, ctx, pred, _seen, depth + 1):
             return True
     return False
+
+
+# ---------------------------------------------------------------------------
+# small boolean evaluator over named atoms (overwrite / exists gates)
+# ---------------------------------------------------------------------------
+
+def eval_bool(test, atoms):
+    """atoms: function(expr) -> True/False/None for atomic sub-expressions."""
+    if isinstance(test, ast.UnaryOp) and isinstance(test.op, ast.Not):
+        v = eval_bool(test.operand, atoms)
+        return None if v is None else (not v)
+    if isinstance(test, ast.BoolOp):
+        vals = [eval_bool(v, atoms) for v in test.values]
+        if isinstance(test.op, ast.Or):
+            if any(v is True for v in vals):
+                return True
+            return False if all(v is False for v in vals) else None
+        if any(v is False for v in vals):
+            return False
+        return True if all(v is True for v in vals) else None
+    if isinstance(test, ast.Constant):
+        return bool(test.value)
+    return atoms(test)
+
+
+def is_exists_call(e):
+    return (isinstance(e, ast.Call) and isinstance(e.func, ast.Attribute)
+            and e.func.attr in ('exists', 'is_file', 'is_dir', 'lexists')) or \
+        (isinstance(e, ast.Call) and dotted(e.func) in ('os.path.exists', 'os.path.lexists',
+                                                         'os.path.isfile', 'os.path.isdir'))
+
+
+class OverwriteGate(GateSpec):
+    """GV: a test that raises exactly when the target exists and `overwrite`
+    is false."""
+    name = 'overwrite-gate'
+
+    def classify_if(self, st, func, ctx):
+        body_raises = always_raises(st.body)
+        else_raises = always_raises(st.orelse)
+        if not (body_raises or else_raises):
+            return None
+        has_ow = any(isinstance(n, ast.Name) and n.id == 'overwrite' for n in ast.walk(st.test))
+        has_ex = any(is_exists_call(n) for n in ast.walk(st.test))
+        if not (has_ow and has_ex):
+            return None
+
+        def mk(ex, ow):
+            def atoms(e):
+                if is_exists_call(e):
+                    return ex
+                if isinstance(e, ast.Name) and e.id == 'overwrite':
+                    return ow
+                return None
+            return atoms
+        res = {}
+        for ex in (True, False):
+            for ow in (True, False):
+                v = eval_bool(st.test, mk(ex, ow))
+                if v is None:
+                    return ('assumed', f'unmodelled overwrite test `{norm(st.test)}`')
+                res[(ex, ow)] = body_raises if v else else_raises
+        if res[(True, False)] and not res[(True, True)] and not res[(False, False)] \
+                and not res[(False, True)]:
+            return ('gate', f'GV overwrite gate `{norm(st.test)}`')
+        if not res[(True, False)]:
+            return ('bad', f'overwrite test `{norm(st.test)}` does not raise when the target '
+                           f'exists and overwrite is false')
+        return ('bad', f'overwrite test `{norm(st.test)}` also raises when writing is allowed')
+
+
+def handler_reraises(h, exc_names=None):
+    """Every path through the handler body ends in raise (optionally of one
+    of the given exception class names; bare raise always qualifies)."""
+    if not always_raises(h.body):
+        return False
+    if exc_names is None:
+        return True
+    ok = True
+    for n in ast.walk(ast.Module(body=h.body, type_ignores=[])):
+        if isinstance(n, ast.Raise) and n.exc is not None:
+            e = n.exc.func if isinstance(n.exc, ast.Call) else n.exc
+            nm = (dotted(e) or '').split('.')[-1]
+            if nm not in exc_names:
+                ok = False
+    return ok
